@@ -10,7 +10,7 @@ Extraction "model.ml"
   fl_alloc_regions fl_alloc_cont fl_add_region fl_add_regions fl_remove_region release_overflow
   make_tx data_alloc_regions data_alloc_cont data_free wal_alloc meta_free meta_alloc_regions meta_free_regions
   commit_step commit_fail_step grow_data_end max_pages_of rollback quota data_avail tx_updated
-  page_load page_set_bytes page_modify page_bytes page_free page_flush fresh_page existing_page
+  page_load page_set_bytes page_modify page_mark_dirty page_bytes page_free page_flush fresh_page existing_page
   run_batches spec_disk sort_batch
   wq_init wq_schedule wq_sync wq_next
   check_truncate rollback_truncate
